@@ -158,3 +158,113 @@ def c11_bounded(tier="quick", seed=0):
         if nme not in [f[0] for f in fx]:
             out.append(ob(f"C11.bounded.fixed.{nme}", True, "B", "ok", domain=1))
     return out
+
+
+# =======================================================================================================================
+# K1: the scalar part of the boundary, for every Python / JavaScript scalar (unbounded integers, every float incl. NaN,
+# infinities and -0, every string) and every context
+# =======================================================================================================================
+from pyvc.api import *      # noqa: E402
+from microjs.values import UNDEFINED, NULL      # noqa: E402
+
+
+def _is_py_scalar(v):
+    return v is None or isinstance(v, bool) or isinstance(v, (int, float)) or isinstance(v, str)
+
+
+def c_to_js_scalar(ctx: Obj("Context"), v: PyVal):
+    """_to_js on a Python scalar: None becomes null; booleans, integers, floats and strings cross unchanged -- the same
+    value of the same type (True stays a boolean and does not become 1, 1 does not become 1.0) -- and the heap is
+    untouched"""
+    assume(_is_py_scalar(v))
+    snap = heap_snapshot()
+    r = outcome(REAL, ctx, v)
+    check("never-raises", r[0] == "ret")
+    if v is None:
+        check("None-becomes-null", same_ref(r[1], NULL))
+    else:
+        check("scalar-unchanged", same_value(r[1], v))
+        check("type-unchanged", isinstance(r[1], bool) == isinstance(v, bool) and isinstance(r[1], int) == isinstance(v, int)
+              and isinstance(r[1], float) == isinstance(v, float) and isinstance(r[1], str) == isinstance(v, str))
+    check("frame.nothing-changed", heap_unchanged(snap))
+
+
+def c_to_python_scalar(ctx: Obj("Context"), v: JSPrim):
+    """_to_python on a JavaScript primitive: undefined and null become None; booleans, numbers and strings cross
+    unchanged (same value, same type)"""
+    snap = heap_snapshot()
+    r = outcome(REAL, ctx, v)
+    check("never-raises", r[0] == "ret")
+    if v is UNDEFINED or v is NULL:
+        check("undefined-and-null-become-None", r[1] is None)
+    else:
+        check("scalar-unchanged", same_value(r[1], v))
+        check("type-unchanged", isinstance(r[1], bool) == isinstance(v, bool) and isinstance(r[1], int) == isinstance(v, int)
+              and isinstance(r[1], float) == isinstance(v, float) and isinstance(r[1], str) == isinstance(v, str))
+    check("frame.nothing-changed", heap_unchanged(snap))
+
+
+def c_set_scalar(ctx: Obj("Context"), name: Str, v: PyVal):
+    """set(name, v): exactly the global `name` is (re)bound, to the converted value; every other global of this context
+    and every other object is unchanged"""
+    assume(_is_py_scalar(v))
+    snap = heap_snapshot()
+    g = ctx._globals
+    r = outcome(REAL, ctx, name, v)
+    check("never-raises", r[0] == "ret" and r[1] is None)
+    if v is None:
+        check("bound-to-null", dict_after_store(snap, g, name, NULL))
+    else:
+        check("bound-to-the-value", dict_after_store(snap, g, name, v))
+    check("frame.only-this-global", heap_unchanged(snap, (g, "dict")))
+
+
+def c_get_scalar(ctx: Obj("Context"), name: Str):
+    """get(name): the Python image of the global (None when it is absent, undefined or null); reading changes nothing"""
+    snap = heap_snapshot()
+    g = ctx._globals
+    assume(name not in g or _is_js_scalar(g[name]))
+    r = outcome(REAL, ctx, name)
+    check("never-raises", r[0] == "ret")
+    if name not in g or g[name] is UNDEFINED or g[name] is NULL:
+        check("absent-undefined-null-read-as-None", r[1] is None)
+    else:
+        check("value-unchanged", same_value(r[1], g[name]))
+    check("frame.nothing-changed", heap_unchanged(snap))
+
+
+def _is_js_scalar(v):
+    return v is UNDEFINED or v is NULL or isinstance(v, bool) or isinstance(v, (int, float)) or isinstance(v, str)
+
+
+def c_set_get_roundtrip(ctx: Obj("Context"), name: Str, other: Str, v: PyVal):
+    """lemma over the real functions: get(name) after set(name, v) is v, and another global reads as before"""
+    assume(_is_py_scalar(v))
+    assume(other != name)
+    g = ctx._globals
+    assume(other not in g or _is_js_scalar(g[other]))
+    before = outcome(_ctx_get(), ctx, other)
+    outcome(REAL, ctx, name, v)
+    after = outcome(_ctx_get(), ctx, name)
+    after_other = outcome(_ctx_get(), ctx, other)
+    check("reads-back", after[0] == "ret" and ((v is None and after[1] is None) or (v is not None and same_value(after[1], v))))
+    check("other-global-unaffected", before[0] == "ret" and after_other[0] == "ret" and same_value(before[1], after_other[1]))
+
+
+def _ctx_get():
+    from microjs.context import Context
+    return Context.get
+
+
+def _native_ctx(name):
+    def make():
+        from microjs.context import Context
+        return getattr(Context, name)
+    return make
+
+
+register(c_to_js_scalar, id="C11.Context._to_js.scalars", prop="C11", target=method("microjs.context", "Context._to_js"), native=_native_ctx("_to_js"))
+register(c_to_python_scalar, id="C11.Context._to_python.scalars", prop="C11", target=method("microjs.context", "Context._to_python"), native=_native_ctx("_to_python"))
+register(c_set_scalar, id="C11.Context.set.scalars", prop="C11", target=method("microjs.context", "Context.set"), native=_native_ctx("set"), heap_inputs=True)
+register(c_get_scalar, id="C11.Context.get.scalars", prop="C11", target=method("microjs.context", "Context.get"), native=_native_ctx("get"), heap_inputs=True)
+register(c_set_get_roundtrip, id="C11.Context.set-get.roundtrip", prop="C11", target=method("microjs.context", "Context.set"), native=_native_ctx("set"), heap_inputs=True)
